@@ -72,8 +72,11 @@ def c11(combos, P):
 def c11wf(P):
     return [{"harness": "vxH11WriteFail", "args": [str(mp), str(sec)], "files": KIT + ["c11"], "preempt": P, "race": True, "reach": ["done"],
              "bounds": f"the peer stops reading: the Write of a reply blocks, {['a Tversion','a Tstat'][sec]} arrives meanwhile, then the Write fails; Maxpend={mp}; <= {P} preemptions"} for mp in (0, 1) for sec in (0, 1)]
-w("C11", {"quick": c11wf(1) + c11([(0,0,0,0,0,False), (2,1,0,0,0,False), (2,1,1,0,0,True), (1,1,2,0,1,False), (1,2,2,1,0,False)], 1),
- "thorough": c11wf(2) + c11([(nf,w_,k0,k1,mp,mid) for nf in (0,1,2) for (w_,k0,k1) in ((0,0,0),(1,0,0),(1,1,0),(1,2,0),(2,0,1),(2,2,1)) for mp in (0,1) for mid in (False,True) if not (nf == 0 and k0 == 1)], 1),
+def c11reuse(P):
+    return [{"harness": "vxH11Reuse", "args": ["true" if rf else "false"], "files": KIT + ["c11"], "preempt": P, "race": True, "reach": ["done"], "timeout_s": 1500,
+             "bounds": f"fid 1 clunked while a Tstat on it is held in the implementation, the number bound again by a Twalk, then the hang-up {'after' if rf else 'before'} the held request returns; <= {P} preemptions"} for rf in (True, False)]
+w("C11", {"quick": c11wf(1) + c11reuse(1) + c11([(0,0,0,0,0,False), (2,1,0,0,0,False), (2,1,1,0,0,True), (1,1,2,0,1,False), (1,2,2,1,0,False)], 1),
+ "thorough": c11wf(2) + c11reuse(2) + c11([(nf,w_,k0,k1,mp,mid) for nf in (0,1,2) for (w_,k0,k1) in ((0,0,0),(1,0,0),(1,1,0),(1,2,0),(2,0,1),(2,2,1)) for mp in (0,1) for mid in (False,True) if not (nf == 0 and k0 == 1)], 1),
  "outside": ["more than 2 requests executing at the disconnect, more than 1 preemption", "write errors other than one stalled-then-failing Write"],
  "assumptions": [SCHED]})
 
